@@ -447,6 +447,11 @@ pub fn run(cfg: &Cfg, rep: &mut Report) {
             ctx.parse("operator-typing-const-union", src, false);
         }
     }
+    for (idx, src) in crate::optyping::diverging_branch_programs().iter().enumerate() {
+        if cfg.owns(idx as u64) {
+            ctx.parse("diverging-branch-narrowing", src, false);
+        }
+    }
     // (d) checklist + imports (every shard: cheap)
     if cfg.shard == 0 {
         let mut accepted = 0;
